@@ -1,8 +1,186 @@
 import Solvor.Common.Proto
 import Solvor.Backend.Model
-/-! Backend: line-protocol handler. One request line in, one reply line out. -/
-namespace Solvor.Backend
+import Solvor.Backend.Certs
+/-!
+Backend: line-protocol handler.  Every request carries one input of one of the nine accelerated
+functions and the *distinct* outputs the back-ends produced for it; the reply carries the
+verdict of the verified checker on each output (certificates are produced here, untrusted) and
+what the Lean side itself computes as the canonical observable.
 
-def handle (line : String) : String := "unimplemented " ++ line
+Edges travel as `[u, v, w]` (`w = 1` for unweighted functions); `∞`/absent as `null`.
+
+* `["dist", n, es, s, outs]`            out = `null` (UNBOUNDED) | `[d0|null, …]`
+    reply `[model|null, [ok…]]`
+* `["pair", n, es, s, t, outs]`         out = `["found", path, obj]` | `["infeasible"]` | `["unbounded"]`
+    reply `[modelDistToT|null, negCycleExists, [ok…]]`
+* `["fw", n, es, directed, outs]`       out = `null` (UNBOUNDED) | matrix
+    reply `[modelMatrix|null, [ok…], [okOnOldAdapterProblem…]]`
+* `["reach", n, es, s, outs]`           out = list of nodes
+    reply `[reachSorted, [[exact, sameSet]…], rustBfsOrder, rustDfsOrder]`
+* `["anypath", n, es, s, t, outs]`      out = `null` | path
+    reply `[reachable, [ok…]]`
+* `["mst", n, es, allowForest, outs]`   out = `[status, F|null, total|null]`
+    reply `[connected, bestWeight|null, [ok…]]`
+* `["scc", n, es, outs]`                out = canonicalised partition
+    reply `[canonScc, [ok…]]`
+* `["topo", n, es, outs]`               out = `null` | order
+    reply `[hasCycle, [ok…]]`
+* `["pagerank", n, es, d, tol, fixed, outs]`   out = list of rationals
+    reply `[fixedOk, bound, [withinBoundOfFixed…], [[pairwise within bound…]…]]`
+-/
+namespace Solvor.Backend
+open Solvor.Proto
+open Solvor.Gen (Status)
+
+def toEdge? (v : Val) : Option WEdge :=
+  match v with
+  | .arr [.int u, .int w, .int x] => if u < 0 || w < 0 then none else some (u.toNat, w.toNat, x)
+  | _ => none
+def toEdges? (v : Val) : Option (List WEdge) := do (← v.toArr?).mapM toEdge?
+def toOptInts? (v : Val) : Option (List (Option Int)) := do (← v.toArr?).mapM (Val.toOpt? Val.toInt?)
+def toMat? (v : Val) : Option (List (List (Option Int))) := do (← v.toArr?).mapM toOptInts?
+def ofOptInts (d : List (Option Int)) : Val := .arr (d.map (Val.ofOpt Val.int))
+def ofEdges (es : List WEdge) : Val := .arr (es.map fun e => .arr [.int e.1, .int e.2.1, .int e.2.2])
+def bools (bs : List Bool) : Val := .arr (bs.map .bool)
+
+def statusOf? : String → Option Status
+  | "OPTIMAL" => some .OPTIMAL
+  | "FEASIBLE" => some .FEASIBLE
+  | "INFEASIBLE" => some .INFEASIBLE
+  | "UNBOUNDED" => some .UNBOUNDED
+  | "MAX_ITER" => some .MAX_ITER
+  | _ => none
+
+def unW (es : List WEdge) : List (Nat × Nat) := es.map fun e => (e.1, e.2.1)
+
+def handleDist (n : Nat) (es : List WEdge) (s : Nat) (outs : List Val) : String :=
+  let model := bfModel n es s
+  let cyc := (findNegCycle n es s).getD []
+  let oks := outs.map fun o =>
+    match o with
+    | .null => checkNegCycle n es s cyc
+    | v => match toOptInts? v with
+      | some d => checkDist n es s d (mkLvl n es s d)
+      | none => false
+  (Val.arr [Val.ofOpt ofOptInts model, bools oks]).render
+
+def handlePair (n : Nat) (es : List WEdge) (s t : Nat) (outs : List Val) : String :=
+  let model := bfModel n es s
+  let pot := model.getD []
+  let cyc := (findNegCycle n es s).getD []
+  let oks := outs.map fun o =>
+    match o with
+    | .arr [.str "found", p, .int x] =>
+      (match p.toNats? with
+       | some p => checkPair n es s t (.found p x) pot cyc
+       | none => false)
+    | .arr [.str "infeasible"] => checkPair n es s t .infeasible pot cyc
+    | .arr [.str "unbounded"] => checkPair n es s t .unbounded pot cyc
+    | _ => false
+  (Val.arr [Val.ofOpt Val.int (dAt pot t), .bool !cyc.isEmpty, bools oks]).render
+
+def fwCheck (n : Nat) (es : List WEdge) (o : Val) : Bool :=
+  match o with
+  | .null => checkFwNeg n es ((findNegCycleAny n es).getD [])
+  | v => match toMat? v with
+    | some M => checkFw n es M ((List.range n).map fun i => mkLvl n es i (M.getD i []))
+    | none => false
+
+def handleFw (n : Nat) (es : List WEdge) (directed : Bool) (outs : List Val) : String :=
+  let prob := pythonFwEdges directed es
+  let model : Option (List (List (Option Int))) :=
+    (List.range n).mapM fun i => bfModel n prob i
+  let oldProb := if directed then es else fwExpandFirst es
+  (Val.arr [Val.ofOpt (fun M => Val.arr (M.map ofOptInts)) model,
+    bools (outs.map (fwCheck n prob)), bools (outs.map (fwCheck n oldProb))]).render
+
+def handleReach (n : Nat) (es : List WEdge) (s : Nat) (outs : List Val) : String :=
+  let canon := reachSorted n es s
+  let vs := outs.map fun o =>
+    match o.toNats? with
+    | some xs => Val.arr [.bool (checkReachList n es s xs), .bool (sameSet xs canon)]
+    | none => Val.arr [.bool false, .bool false]
+  (Val.arr [Val.ofNats canon, .arr vs, Val.ofNats (rustBfs n es s), Val.ofNats (rustDfs n es s)]).render
+
+def handleAnyPath (n : Nat) (es : List WEdge) (s t : Nat) (outs : List Val) : String :=
+  let oks := outs.map fun o =>
+    match o with
+    | .null => checkAnyPath n es s t none
+    | v => match v.toNats? with
+      | some p => checkAnyPath n es s t (some p)
+      | none => false
+  (Val.arr [.bool (reachB n es s t), bools oks]).render
+
+def handleMst (n : Nat) (es : List WEdge) (allow : Bool) (outs : List Val) : String :=
+  let oks := outs.map fun o =>
+    match o with
+    | .arr [.str st, F, total] =>
+      (match statusOf? st, Val.toOpt? toEdges? F, Val.toOpt? Val.toInt? total with
+       | some st, some F, some total => checkMst n es allow st F total
+       | _, _, _ => false)
+    | _ => false
+  (Val.arr [.bool (connectedB n es), Val.ofOpt Val.int ((bestForest n es).map (·.1)), bools oks]).render
+
+def handleScc (n : Nat) (es : List WEdge) (outs : List Val) : String :=
+  let oks := outs.map fun o =>
+    match o.toNatss? with
+    | some cs => checkScc n es cs
+    | none => false
+  (Val.arr [Val.ofNatss (canonScc n es), bools oks]).render
+
+def handleTopo (n : Nat) (es : List WEdge) (outs : List Val) : String :=
+  let oks := outs.map fun o =>
+    match o with
+    | .null => checkTopo n es none
+    | v => match v.toNats? with
+      | some ord => checkTopo n es (some ord)
+      | none => false
+  (Val.arr [.bool (hasCycle n es), bools oks]).render
+
+def handlePagerank (n : Nat) (es : List WEdge) (d tol : Rat) (fixed : List Rat) (outs : List (List Rat)) : String :=
+  let bound := 10 * tol / (1 - d)
+  let fixedOk := isPrFixed n (unW es) d fixed
+  (Val.arr [.bool fixedOk, Val.ofRat bound, bools (outs.map fun x => within x fixed bound),
+    .arr (outs.map fun x => bools (outs.map fun y => within x y bound))]).render
+
+def handle (line : String) : String :=
+  match request line with
+  | some ("dist", [n, es, s, outs]) =>
+    (match n.toNat?, toEdges? es, s.toNat?, outs.toArr? with
+     | some n, some es, some s, some outs => handleDist n es s outs
+     | _, _, _, _ => err "bad arguments")
+  | some ("pair", [n, es, s, t, outs]) =>
+    (match n.toNat?, toEdges? es, s.toNat?, t.toNat?, outs.toArr? with
+     | some n, some es, some s, some t, some outs => handlePair n es s t outs
+     | _, _, _, _, _ => err "bad arguments")
+  | some ("fw", [n, es, directed, outs]) =>
+    (match n.toNat?, toEdges? es, directed.toBool?, outs.toArr? with
+     | some n, some es, some dr, some outs => handleFw n es dr outs
+     | _, _, _, _ => err "bad arguments")
+  | some ("reach", [n, es, s, outs]) =>
+    (match n.toNat?, toEdges? es, s.toNat?, outs.toArr? with
+     | some n, some es, some s, some outs => handleReach n es s outs
+     | _, _, _, _ => err "bad arguments")
+  | some ("anypath", [n, es, s, t, outs]) =>
+    (match n.toNat?, toEdges? es, s.toNat?, t.toNat?, outs.toArr? with
+     | some n, some es, some s, some t, some outs => handleAnyPath n es s t outs
+     | _, _, _, _, _ => err "bad arguments")
+  | some ("mst", [n, es, allow, outs]) =>
+    (match n.toNat?, toEdges? es, allow.toBool?, outs.toArr? with
+     | some n, some es, some allow, some outs => handleMst n es allow outs
+     | _, _, _, _ => err "bad arguments")
+  | some ("scc", [n, es, outs]) =>
+    (match n.toNat?, toEdges? es, outs.toArr? with
+     | some n, some es, some outs => handleScc n es outs
+     | _, _, _ => err "bad arguments")
+  | some ("topo", [n, es, outs]) =>
+    (match n.toNat?, toEdges? es, outs.toArr? with
+     | some n, some es, some outs => handleTopo n es outs
+     | _, _, _ => err "bad arguments")
+  | some ("pagerank", [n, es, d, tol, fixed, outs]) =>
+    (match n.toNat?, toEdges? es, d.toRat?, tol.toRat?, fixed.toRats?, outs.toRatss? with
+     | some n, some es, some d, some tol, some fixed, some outs => handlePagerank n es d tol fixed outs
+     | _, _, _, _, _, _ => err "bad arguments")
+  | _ => err "bad request"
 
 end Solvor.Backend
